@@ -215,6 +215,10 @@ class ContractMixin:
             for n in names:
                 self.note_class(n)
             return S_bool(z3.Or(*[isa(box(x, st), n) for n in names]))
+        if name == "appended":
+            # ghost: what the kernel appended to an unmodelled container (by receiver text)
+            g = st.notes.get("ghost_appends") or {}
+            return g.get(node.args[0].value) or Sym("seq", Q.Empty(), Spec("seq", VAL))
         if name == "truthy":
             return S_bool(truth(self.eval(node.args[0], st), st))
         if name == "field":
